@@ -25,8 +25,17 @@ for d in /verif/seeded/C*/ /verif/seeded/own-*/; do
   ids="C01 C02 C03 C04 C05 C06 C07 C08 C09 C10 C11 C12 C13 C14 C15 C16 C17 C18 C19 C20"
   # ONLY_OWN=1: the diagonal only (the check of the property the seed was written against)
   if [ -n "$ONLY_OWN" ]; then ids=$(echo $sid | sed 's/^own-//' | cut -c1-3); fi
+  # seeds that are visible only with debug assertions compiled out (meta.json has a profile_note): the second pass of
+  # run.sh is reproduced here for the checks that have one
+  nd=""
+  if grep -q profile_note $d/meta.json 2>/dev/null; then
+    (cd $mx/mc && cargo build --profile nodebug --offline > $mx/build-nd.log 2>&1) && nd=1
+  fi
   for id in $ids; do
     $mx/target/release/bppmc check $id --tier quick > $mx/last.log 2>&1; code=$?
+    if [ -n "$nd" ] && [ $code -eq 0 ] && echo " C02 C05 C13 C14 C16 C20 " | grep -q " $id "; then
+      BPPMC_PROFILE=nodebug $mx/target/nodebug/bppmc check $id --tier quick > $mx/last-nd.log 2>&1; code=$?
+    fi
     line="$line $id=$code"
   done
   git checkout -q -- .
